@@ -56,6 +56,7 @@ class Contract:
     options: Dict[str, Any] = field(default_factory=dict)   # engine options for this function
     vname: str = ''
     trusted_ensures: Dict[str, str] = field(default_factory=dict)  # assumed at call sites, checked natively only
+    callsite: Dict[str, List[str]] = field(default_factory=dict)   # callee name -> assertions before each call of it
 
     @property
     def modname(self):
@@ -91,6 +92,21 @@ class Registry:
         self.externals: Dict[Any, Any] = {}
         self.symbolic_globals: Dict[str, str] = {}   # 'module:attr' -> kind (mutable settings)
         self.tuple_classes: Dict[str, type] = {}     # tuple kind text -> NamedTuple class (methods)
+        self.field_invs: Dict[Any, Any] = {}          # (schema, attr) -> (schema, clause over v, holder)
+
+    def field_invariant(self, cls, attr):
+        if not self.field_invs:
+            return None
+        seen, todo = set(), [cls]
+        while todo:
+            c = todo.pop(0)
+            if c in seen or c not in self.schemas:
+                continue
+            seen.add(c)
+            if (c, attr) in self.field_invs:
+                return self.field_invs[(c, attr)]
+            todo.extend(self.schemas[c].bases)
+        return None
 
     def contract(self, target, **kw):
         import inspect
@@ -107,12 +123,16 @@ class Registry:
         key = target if variant is None else f'{target}#{variant}'
         if key in self.contracts:
             old = self.contracts[key]
+            if not old.assumed and c.assumed and not c.ensures and not c.requires and not c.modifies:
+                return old       # a frame-only assumption never replaces a contract that is verified
             if old.assumed and c.assumed and not c.ensures and not c.requires and not c.modifies:
                 # a frame-only assumption stated by several property files: merge
                 old.props = sorted(set(old.props) | set(c.props))
                 return old
-            if old.assumed and c.assumed and not old.ensures and not old.requires and not old.modifies:
-                c.props = sorted(set(old.props) | set(c.props))
+            if old.assumed and not old.ensures and not old.requires and not old.modifies:
+                # a real (or stronger assumed) contract supersedes a frame-only assumption
+                if c.assumed:
+                    c.props = sorted(set(old.props) | set(c.props))
                 self.by_target[target] = [x for x in self.by_target[target] if x is not old]
             else:
                 raise ValueError(f'duplicate contract {key}')
@@ -120,10 +140,19 @@ class Registry:
         self.by_target.setdefault(target, []).append(c)
         return c
 
-    def schema(self, name, path, fields=None, invariant=(), bases=(), key_view=None, eq_view=None):
+    def schema(self, name, path, fields=None, invariant=(), bases=(), key_view=None, eq_view=None,
+               field_inv=None):
         s = ClassSchema(name, path, dict(fields or {}), list(invariant), list(bases))
         s.key_view = key_view      # field that carries hash/equality when used as a dict key
         s.eq_view = eq_view        # spec function giving the value compared by __eq__
+        if field_inv:
+            # attr -> clause over `v`: a type invariant of the attribute, assumed whenever the
+            # attribute is read and proved at every write in a function under verification
+            import inspect
+            mod = inspect.getmodule(inspect.stack()[1][0])
+            holder = Contract(target=(path.split(':')[0] + ':' + name), module=mod)
+            for a, cl in field_inv.items():
+                self.field_invs[(name, a)] = (name, cl, holder)
         if name in self.schemas:
             # later declarations extend earlier ones (shared schemas grow per property)
             old = self.schemas[name]
@@ -162,6 +191,8 @@ class Registry:
 
     def schema_for_class(self, cls):
         for s in self.schemas.values():
+            if ':' not in (s.path or ''):
+                continue         # a record / structural schema without a real class
             mod, qn = s.path.split(':')
             if cls.__module__ == mod and cls.__qualname__ == qn:
                 return s.name
